@@ -63,6 +63,8 @@ func corpus() []scenario {
 		// ---- kind-service-names
 		{"kind-names:stale-row:connect-enabled", []*Op{opReg("", "n1", idN1, typical("web1", "web", true)), opReg("", "n1", idN1, typical("web1", "web", false))}},
 		{"kind-names:stale-row:instance-kind", []*Op{opReg("", "n1", idN1, typical("db1", "db", false)), opReg("", "n1", idN1, typical("db1", "api", false))}},
+		{"kind-names:stale-row:instance-kind:left-by-deregistration", []*Op{opReg("", "n1", idN1, typical("a1", "web", false)),
+			opReg("", "n1", idN1, &SvcArg{ID: "a2", Name: "web", Port: 8000, Kind: "mesh-gateway"}), opDereg("", "n1", "a1", "")}},
 		{"kind-names:stale-row:destination", []*Op{opCfg(sd, "db", "dest"), opCfg(sd, "db", "tcp")}},
 		// ---- gateway-services
 		{"gateway-services:wildcard-flag:terminating-gateway:named-service", []*Op{opCfg(tg, "term-gw", "web+*"), opReg("", "n1", idN1, typical("web1", "web", false))}},
